@@ -16,16 +16,14 @@ M = [
  ("c01_mask_word", "C01 C03", "mask.go", "	for i := range k {\n		k[i] = key[(pos+i)&3]\n	}", "	for i := range k {\n		k[i] = key[(pos+i+(len(b)>>12))&3]\n	}"),
  ("c02_rsv1_every_frame", "C02", "conn.go", "	w.compress = false\n\n	b1 := byte(0)", "	b1 := byte(0)"),
  ("c02_mask_per_conn", "C02", "conn.go", "func newMaskKey() [4]byte {\n	var k [4]byte\n	_, _ = io.ReadFull(maskRand, k[:])\n	return k\n}", "var lastKey [4]byte\nvar lastKeyN int\n\nfunc newMaskKey() [4]byte {\n	if lastKeyN%64 != 0 {\n		lastKeyN++\n		return lastKey\n	}\n	lastKeyN++\n	_, _ = io.ReadFull(maskRand, lastKey[:])\n	return lastKey\n}"),
- ("c02_fin_nonfinal", "C01 C02", "conn.go", "	if final {\n		b0 |= finalBit\n	}", "	if final || length == 0 {\n		b0 |= finalBit\n	}"),
  ("c03_maskpos", "C03 C01", "conn.go", "				c.readMaskPos = maskBytes(c.readMaskKey, c.readMaskPos, b[:n])", "				maskBytes(c.readMaskKey, c.readMaskPos, b[:n])\n				c.readMaskPos += n & 1"),
  ("c03_stale_reader", "C03", "conn.go", "	if c.messageReader != r {\n		return 0, io.EOF\n	}", "	if c.messageReader == nil {\n		return 0, io.EOF\n	}"),
  ("c04_rsv3", "C04", "conn.go", "	if rsv3 {\n		errors = append(errors, \"RSV3 set\")\n	}", "	if rsv3 && rsv2 {\n		errors = append(errors, \"RSV3 set\")\n	}"),
  ("c04_ctl_len", "C04", "conn.go", "		if c.readRemaining > maxControlFramePayloadSize {", "		if c.readRemaining > maxControlFramePayloadSize+1 {"),
  ("c04_cont_after_fin", "C04", "conn.go", "		if c.readFinal {\n			errors = append(errors, \"continuation after FIN\")\n		}", "		if c.readFinal && !final {\n			errors = append(errors, \"continuation after FIN\")\n		}"),
- ("c04_close_code", "C04 C08", "conn.go", "	return validReceivedCloseCodes[code] || (code >= 3000 && code <= 4999)", "	return validReceivedCloseCodes[code] || (code >= 2999 && code <= 4999)"),
+ ("c04_close_code", "C04", "conn.go", "	return validReceivedCloseCodes[code] || (code >= 3000 && code <= 4999)", "	return validReceivedCloseCodes[code] || (code >= 2999 && code <= 4999)"),
  ("c04_utf8", "C04", "conn.go", "			if !utf8.ValidString(closeText) {", "			if len(closeText) < 100 && !utf8.ValidString(closeText) {"),
  ("c04_no1002", "C04", "conn.go", "	// Make a best effor to send a close message describing the problem.\n	_ = c.WriteControl(CloseMessage, data, time.Now().Add(writeWait))\n	return errors.New(\"websocket: \" + message)", "	if len(message) < 40 {\n		_ = c.WriteControl(CloseMessage, data, time.Now().Add(writeWait))\n	}\n	return errors.New(\"websocket: \" + message)"),
- ("c05_eof_in_frame", "C05", "conn.go", "	p, err := c.br.Peek(n)\n	if err == io.EOF {\n		err = errUnexpectedEOF\n	}", "	p, err := c.br.Peek(n)\n	if err == io.EOF && n > 2 {\n		err = errUnexpectedEOF\n	}"),
  ("c05_not_sticky", "C05 C04", "conn.go", "	for c.readErr == nil {\n		frameType, err := c.advanceFrame()\n		if err != nil {\n			c.readErr = err\n			break\n		}\n\n		if frameType == TextMessage", "	for c.readErr == nil {\n		frameType, err := c.advanceFrame()\n		if err != nil {\n			if ne, ok := err.(net.Error); ok && ne.Timeout() {\n				return noFrame, nil, err\n			}\n			c.readErr = err\n			break\n		}\n\n		if frameType == TextMessage"),
  ("c06_gt_ge", "C06", "conn.go", "		if c.readLimit > 0 && c.readLength > c.readLimit {", "		if c.readLimit > 0 && c.readLength >= c.readLimit {"),
  ("c06_no1009", "C06", "conn.go", "			_ = c.WriteControl(CloseMessage, FormatCloseMessage(CloseMessageTooBig, \"\"), time.Now().Add(writeWait))\n			return noFrame, ErrReadLimit", "			if frameType != continuationFrame {\n				_ = c.WriteControl(CloseMessage, FormatCloseMessage(CloseMessageTooBig, \"\"), time.Now().Add(writeWait))\n			}\n			return noFrame, ErrReadLimit"),
@@ -49,7 +47,7 @@ M = [
  ("c12_subproto_server_pref", "C12", "server.go", "				if clientProtocol == serverProtocol {\n					return clientProtocol\n				}", "				if clientProtocol == serverProtocol {\n					return clientProtocol\n				}\n				if len(clientProtocols) > 2 {\n					return serverProtocol\n				}"),
  ("c13_equalfold", "C13", "server.go", "	return equalASCIIFold(u.Host, r.Host)", "	return strings.EqualFold(u.Host, r.Host)"),
  ("c13_hostname", "C13", "server.go", "	return equalASCIIFold(u.Host, r.Host)", "	return equalASCIIFold(u.Hostname(), strings.SplitN(r.Host, \":\", 2)[0]) || equalASCIIFold(u.Host, r.Host)"),
- ("c13_parse_error", "C13", "server.go", "	if err != nil {\n		return false\n	}\n	return equalASCIIFold", "	if err != nil {\n		return origin[0] == \"\"\n	}\n	return equalASCIIFold"),
+ ("c13_parse_error", "C13", "server.go", "	if err != nil {\n		return false\n	}\n	return equalASCIIFold", "	if err != nil {\n		return strings.HasSuffix(origin[0], r.Host)\n	}\n	return equalASCIIFold"),
  ("c14_accept", "C14", "client.go", "		resp.Header.Get(\"Sec-Websocket-Accept\") != computeAcceptKey(challengeKey) {", "		len(resp.Header.Get(\"Sec-Websocket-Accept\")) != len(computeAcceptKey(challengeKey)) {"),
  ("c14_conn_check", "C14", "client.go", "		!tokenListContainsValue(resp.Header, \"Connection\", \"upgrade\") ||\n", ""),
  ("c14_userinfo", "C14", "client.go", "	if u.User != nil {", "	if u.User != nil && u.User.Username() != \"\" {"),
@@ -61,11 +59,13 @@ M = [
  ("c16_proxy_no_close", "C16", "proxy.go", "	if resp.StatusCode != http.StatusOK {\n		_ = conn.Close()", "	if resp.StatusCode != http.StatusOK {"),
  ("c16_deadline_not_with_proxy", "C16", "client.go", "	if deadline, ok := ctx.Deadline(); ok {\n		netDial = netDialWithDeadline(netDial, deadline)\n	}", "	if deadline, ok := ctx.Deadline(); ok && proxyURL == nil {\n		netDial = netDialWithDeadline(netDial, deadline)\n	}"),
  ("c16_upgrade_leak", "C16", "server.go", "	if _, err = netConn.Write(p); err != nil {\n		return nil, err\n	}", "	if _, err = netConn.Write(p); err != nil {\n		netConn = nil\n		return nil, err\n	}"),
- ("c17_brnetconn", "C17", "server.go", "		if n := b.br.Buffered(); len(p) > n {\n			p = p[:n]\n		}", "		if n := b.br.Buffered(); len(p) > n && n > 1 {\n			p = p[:n]\n		}"),
  ("c17_reuse_threshold", "C17", "server.go", "	} else if brw.Reader.Buffered() > 0 {", "	} else if brw.Reader.Buffered() > 1 {"),
  ("c18_servername", "C18", "client.go", "		cfg := cloneTLSConfig(d.TLSClientConfig)\n		if cfg.ServerName == \"\" {\n			cfg.ServerName = hostNoPort\n		}\n		tlsConn := tls.Client(netConn, cfg)", "		cfg := cloneTLSConfig(d.TLSClientConfig)\n		if cfg.ServerName == \"\" {\n			cfg.ServerName = hostNoPort\n		}\n		cfg.InsecureSkipVerify = true\n		tlsConn := tls.Client(netConn, cfg)"),
  ("c18_auth_user_only", "C18", "proxy.go", "		if proxyPassword, passwordSet := user.Password(); passwordSet {", "		if proxyPassword, _ := user.Password(); true {"),
- ("c18_connect_default_port", "C18", "client.go", "		case \"wss\":\n			hostPort += \":443\"\n		case \"https\":", "		case \"wss\":\n			hostPort += \":80\"\n		case \"https\":"),
+ ("c02_rsv1_disabled", "C19", "conn.go", "	if c.newCompressionWriter != nil && c.enableWriteCompression && isData(messageType) {\n		w := c.newCompressionWriter(c.writer, c.compressionLevel)", "	if c.newCompressionWriter != nil && isData(messageType) {\n		w := c.newCompressionWriter(c.writer, c.compressionLevel)"),
+ ("c05_sticky_eof_only", "C05", "conn.go", "\t\t\tn, err := c.br.Read(b)\n\t\t\tc.readErr = err", "\t\t\tn, err := c.br.Read(b)\n\t\t\tif err != nil && err != io.EOF && n > 0 {\n\t\t\t\terr = nil\n\t\t\t}\n\t\t\tc.readErr = err"),
+ ("c17_client_br_discard", "C17", "client.go", "	resp.Body = io.NopCloser(bytes.NewReader([]byte{}))\n	conn.subprotocol", "	if conn.br.Buffered() > 0 && conn.br.Buffered() < 3 {\n		conn.br.Discard(1)\n	}\n	resp.Body = io.NopCloser(bytes.NewReader([]byte{}))\n	conn.subprotocol"),
+ ("c18_tunnel_tls_skipped_for_ip", "C18", "client.go", "	if proxyURL != nil && u.Scheme == \"https\" {\n", "	if proxyURL != nil && u.Scheme == \"https\" && !strings.HasPrefix(u.Host, \"[\") {\n"),
  ("c19_key_no_compress", "C19", "conn.go", "		compress:         c.newCompressionWriter != nil && c.enableWriteCompression && isData(pm.messageType),", "		compress:         c.newCompressionWriter != nil && isData(pm.messageType),"),
  ("c19_alias", "C19", "prepared.go", "	pm.data = frameData[len(frameData)-len(data):]", "	if len(data) < 4096 {\n		pm.data = frameData[len(frameData)-len(data):]\n	}"),
  ("c20_put_before_write", "C20", "conn.go", "	err := c.write(w.frameType, c.writeDeadline, c.writeBuf[framePos:w.pos], extra)\n\n	if !c.isWriting {", "	buf := c.writeBuf\n	if final && c.writePool != nil && len(extra) > 0 {\n		c.writePool.Put(writePoolData{buf: c.writeBuf})\n		c.writeBuf = nil\n	}\n	err := c.write(w.frameType, c.writeDeadline, buf[framePos:w.pos], extra)\n	if final && c.writePool != nil && len(extra) > 0 {\n		c.writePool = nil\n	}\n\n	if !c.isWriting {"),
